@@ -1,0 +1,9 @@
+//go:build verif
+
+package pipeline
+
+// Contracts for the verification harness under /verif (comment-only file).
+
+//@ func NewOffsets
+//@   pure
+//@   ensures result.current == current
